@@ -312,7 +312,7 @@ PROPS = {
                 "deinterlace_interlace_bits: the same for pixels below 8 bits (deinterlace_bits: the machine is generic in the unit - byte or bit -, the line encoder and the units reader; bit_units_roundtrip shows the "
                 "u32 subtraction never underflows on a pass that has pixels and that the reader cuts the padding off) - every row's pixels come back unchanged (returned_row_pixels) and the unused bits after a row's last "
                 "pixel come back as zero, so the image comes back byte for byte whenever its padding bits were zero (deinterlace_interlace_bits_exact). "
-                "interlace_places_pixels: the interlaced data is, position by position along the specification's Adam7 storage order, the original's pixel at those coordinates (whole image, byte pixels). "
+                "interlace_places_pixels / interlace_stored_pixels: the interlaced data is, position by position along the specification's Adam7 storage order, the original's pixel at those coordinates (whole image, byte pixels). "
                 "THE OTHER ORDER (Props/C18Reverse.lean, the only file importing Mathlib: Mathlib.Data.Fintype.Card/.Vector): interlace_deinterlace_bytes - for ANY interlaced data of the header-implied size (byte pixels, all "
                 "w, h >= 1) deinterlace_image succeeds and interlace_image of its result is the image started from: interlace_image restricted to one header is an injective self-map (left inverse: the round trip) of the byte "
                 "strings of one length (dataSize_bytes: the pass areas partition the image), hence onto. Not proved: the other order below 8 bits (there the unused row bits make interlace_image non-surjective; the statement "
